@@ -804,3 +804,9 @@ CHECKS['C03']['gens'] = CHECKS['C03']['gens'] + ['QuorumIndex']
 CHECKS['C03']['level_text'] = CHECKS['C03']['level_text'] + (" QUORUM INDEX (Props/C03Quorum): over the pinned statement list of raft.maybeCommit (buffer re-sized to the current voters on every call, "
     "sorted, entry at len - quorum()) and the regenerated quorum(): C03_quorum_index_has_quorum — for every voter count and all Match values at least quorum() of the CURRENT voters store the index a leader commits; "
     "witness of the seeded stale-slot variant (C03-m4).")
+
+# C01: a changed vote is handed out for persistence with MustSync (Gen/HardState.lean, Props/C01HardState.lean)
+CHECKS['C01']['props'] = CHECKS['C01']['props'] + ['ZanVerif.Props.C01HardState']
+CHECKS['C01']['gens'] = CHECKS['C01']['gens'] + ['HardState']
+CHECKS['C01']['level_text'] = CHECKS['C01']['level_text'] + (" VOTE DURABILITY (Props/C01HardState): over the regenerated isHardStateEqual / MustSync and the pinned hand-out of newReady: "
+    "C01_changed_vote_is_persisted — a Ready whose vote differs from the previous hard state carries the hard state and demands a sync, whatever term and commit are.")
